@@ -66,6 +66,8 @@ func pokeLists(v reflect.Value, depth int) {
 	}
 }
 
+var sweepCount int
+
 // guard runs f and reports a panic as a string.
 func guard(f func()) (p string) {
 	defer func() {
@@ -194,6 +196,11 @@ func exerciseClaims(c jwt.Claims, s *signer, report func(op, panic string)) {
 	// every tag / string / network list anywhere in the decoded claims: remove and re-add each of its entries
 	// (a hand-written payload may hold duplicates, which the library's own Add never creates)
 	try("list helpers on decoded lists", func() { pokeLists(reflect.ValueOf(c), 0) })
+	// every other exported method of everything reachable from the claims, with synthesised arguments
+	sweepCount++
+	if sweepCount%20 == 1 {
+		sweepMethods(c, func(op, p string) { report("method sweep: "+op, p) })
+	}
 	// re-encode last: Encode sorts and stamps
 	try("Encode", func() { c.Encode(s.kp) })
 }
@@ -397,7 +404,10 @@ func runC11(c *Ctx) {
 				// string-valued nodes additionally take hostile strings (subjects with empty tokens, "$" references,
 				// wildcards and blanks in odd places, over-long text)
 				if _, isStr := nodeAt(tree, p).(string); isStr {
-					for _, hs := range hostileStrings {
+					for hi, hs := range hostileStrings {
+						if !c.thorough() && (hi+len(muts)+len(p)+b)%3 != 0 {
+							continue // quick tier: a rotating third of the hostile strings per node
+						}
 						muts = append(muts, struct {
 							how  string
 							repl interface{}
@@ -662,6 +672,6 @@ func runC11(c *Ctx) {
 	}
 	w.flush()
 	c.sum.DistinctNontriv = len(distinct)
-	c.sum.Rule = "every single-node structural mutation (replace by null / number / string / [] / {} / [null] / {k:null} / bool / [{}] / huge float; drop; duplicate incl. a case-folded key) of rich valid payloads of each kind, plus random double mutations, each correctly signed in both layouts, then every decoder and every public operation on what was decoded (validation, printing, queries, signer and revocation queries, export lookup, hash id, mutation helpers, re-encoding) under recover(); every segment of valid tokens replaced by the base64url text of JSON literals of the wrong shape (null, numbers, strings, arrays, partial objects), by nothing and by non-base64 text; arbitrary byte strings (token and credentials fragments, random bytes) into every parser and decorator of v2 and of the bundled v1 library; rich version-1 payloads of all seven v1 kinds with every single-node mutation through every v1compat decoder and every public operation on what it decoded; the modelled index / dereference / nil-map sites on the same inputs in Coq; non-trivial = distinct (kind, mutation, depth, replacement)"
+	c.sum.Rule = "every single-node structural mutation (replace by null / number / string / [] / {} / [null] / {k:null} / bool / [{}] / huge float; drop; duplicate incl. a case-folded key) of rich valid payloads of each kind, plus random double mutations, each correctly signed in both layouts, then every decoder and every public operation on what was decoded (plus, on every twentieth token, a reflective sweep of every other exported method of everything reachable from the claims with synthesised arguments) (validation, printing, queries, signer and revocation queries, export lookup, hash id, mutation helpers, re-encoding) under recover(); every segment of valid tokens replaced by the base64url text of JSON literals of the wrong shape (null, numbers, strings, arrays, partial objects), by nothing and by non-base64 text; arbitrary byte strings (token and credentials fragments, random bytes) into every parser and decorator of v2 and of the bundled v1 library; rich version-1 payloads of all seven v1 kinds with every single-node mutation through every v1compat decoder and every public operation on what it decoded; the modelled index / dereference / nil-map sites on the same inputs in Coq; non-trivial = distinct (kind, mutation, depth, replacement)"
 	_ = reflect.TypeOf
 }
